@@ -45,6 +45,9 @@ EditFails(e) ==
 GraphFails(e) ==
     (IF ToSet(e.retnodes) = N THEN {} ELSE {"edit.nodes"}) \cup (IF ToSet(e.ret) = E THEN {} ELSE {"edit.edges"})
     \cup (IF ToSet(e.z) = Lt THEN {} ELSE {"edit.latents"})
+    \* the accessors of the same graph: roots (no parent), leaves (no child)
+    \cup (IF ToSet(e.roots) = {n \in N : Pa(E, n) = {}} THEN {} ELSE {"graph.roots"})
+    \cup (IF ToSet(e.leaves) = {n \in N : Ch(E, n) = {}} THEN {} ELSE {"graph.leaves"})
 
 \* the set of failing clauses of event e (empty = conformant)
 Fails(e) ==
@@ -60,8 +63,9 @@ Fails(e) ==
               (IF \A u \in S : DConn(N, E, e.x, e.y, S \ {u}) THEN {} ELSE {"minsep.not_minimal"})
     [] e.op = "markov_blanket" ->
          IF ToSet(e.ret) = MarkovBlanket(E, e.x) THEN {} ELSE {"markov_blanket.set"}
-    [] e.op = "local_independencies" ->
-         IF {Trip(a) : a \in ToSet(e.ret)} = LocalIndepRet(N, E, e.x) THEN {} ELSE {"local_independencies.set"}
+    [] e.op = "local_independencies" ->    \* one variable (e.x) or a list of variables (e.z): the union of their local statements
+         LET V == IF e.z = <<>> THEN {e.x} ELSE ToSet(e.z) IN
+         IF {Trip(a) : a \in ToSet(e.ret)} = UNION {LocalIndepRet(N, E, v) : v \in V} THEN {} ELSE {"local_independencies.set"}
     [] e.op = "moralize" ->
          IF {ToSet(p) : p \in ToSet(e.ret)} = Moral(E) /\ ToSet(e.retnodes) = N THEN {} ELSE {"moralize.edges"}
     [] e.op = "ancestral" ->
